@@ -225,7 +225,30 @@ type fvcC04Stats struct {
 }
 
 func (s *fvcC04Stats) compare(t *testing.T, desc func() string, known string, a, b *App) {
-	ha, hb := a.Handler(), b.Handler()
+	var ha, hb fasthttp.RequestHandler
+	func() {
+		defer func() {
+			if r := recover(); r != nil {
+				msg := fmt.Sprintf("%s | start-up panics: %v", desc(), r)
+				if known != "" {
+					if s.known[known] == 0 {
+						s.knownEx[known] = msg
+					}
+					s.known[known]++
+					return
+				}
+				s.fails++
+				if s.fails <= 40 {
+					fmt.Println("FVC-FAIL " + msg)
+				}
+				t.Fail()
+			}
+		}()
+		ha, hb = a.Handler(), b.Handler()
+	}()
+	if ha == nil || hb == nil {
+		return
+	}
 	for _, rq := range fvcC04Requests {
 		for _, pass := range []bool{false, true} {
 			oa := fvcC04Observe(ha, rq[0], rq[1], pass)
